@@ -28,7 +28,7 @@ RULE = (
 COMPONENTS_REAL = ["pdfminer.pdfparser.PDFParser.do_keyword (stream branch)", "pdfminer.pdftypes.PDFStream.get_filters/decode", "pdfminer.lzw / ascii85 / runlength / zlib", "pdfminer.utils.apply_png_predictor / apply_tiff_predictor", "pdfminer.pdfdocument.getobj"]
 COMPONENTS_STUB = ["file object: io.BytesIO over SimWriter output", "BUFSIZ chunk seam", "eviction wrapper", "encoders: sim.encoders (independent)"]
 ASSUMPTIONS = ["supported predictor geometry: PNG bits 8 or 1, TIFF bits 8; colours 1..4; columns 1..40", "LZW with default EarlyChange=1"]
-PROBES = ["payload of tens of kilobytes", "indirect Length", "indirect Length after stream", "indirect Filter", "indirect DecodeParms", "payload contains endstream", "stream EOL crlf", "lzw beyond 9 bits", "lzw table reset", "png predictor", "png predictor colours>1", "png predictor 1-bit", "tiff predictor", "chain length 3", "abbreviated filter name", "boundary placed at stream keyword", "eviction happened"]
+PROBES = ["damaged data decoded first", "payload of tens of kilobytes", "indirect Length", "indirect Length after stream", "indirect Filter", "indirect DecodeParms", "payload contains endstream", "stream EOL crlf", "lzw beyond 9 bits", "lzw table reset", "png predictor", "png predictor colours>1", "png predictor 1-bit", "tiff predictor", "chain length 3", "abbreviated filter name", "boundary placed at stream keyword", "eviction happened"]
 TIERS = {
     "quick": {"batches": 16, "runs": 1500, "budget_s": 45},
     "thorough": {"batches": 128, "runs": 3000, "budget_s": 900},
@@ -179,6 +179,17 @@ def run(tape, ctx, item=None):
                 ctx.probe("lzw beyond 9 bits")
             if f == "LZWDecode" and len(plain) > 8000:
                 ctx.probe("lzw table reset")
+    # a damaged sibling first: the same decoders are fed data that lost its head, its tail or its order (whatever
+    # they answer or raise); what they are given afterwards must decode as if nothing had happened before
+    if direct_checks and t.coin(12, 100, "damaged.first"):
+        ctx.probe("damaged data decoded first")
+        ctx.fault("damaged-sibling-stream")
+        for f, enc, plain in direct_checks:
+            for bad in (enc[1:], enc[2:], enc[: len(enc) // 2], enc[::-1], b"\x00" + enc):
+                try:
+                    direct[f](bad)
+                except Exception:
+                    pass
     # decoders called directly
     for f, enc, plain in direct_checks:
         try:
